@@ -160,8 +160,18 @@ def session(rid, seed):
                 sf.charts[j].extradata = ex or None
                 log("setchartextra", sf, j=j + 1, extra=[cps(x) for x in ex])
             elif r < 0.93:
+                on_disk = rng.random() < 0.4 and "\r" not in "".join(v or "" for v in sf.values())
                 try:
-                    text = str(sf)
+                    if on_disk:
+                        # through a real (in-memory) filesystem: serialize into a file, read the bytes back
+                        from fs.memoryfs import MemoryFS
+                        mem = MemoryFS()
+                        path = "/song." + fmt
+                        with mem.open(path, "w", encoding="utf-8") as f:
+                            sf.serialize(f)
+                        text = mem.readbytes(path).decode("utf-8")
+                    else:
+                        text = str(sf)
                 except Exception:  # noqa
                     continue
                 if len(text) > 900:
@@ -171,7 +181,11 @@ def session(rid, seed):
                     first_version = bool(sf) and next(iter(sf.keys())) == "VERSION"
                     detect = rng.random() < 0.5 and ((fmt == "sm") != first_version)
                     try:
-                        sf = simfile.loads(text) if detect else type(sf)(string=text)
+                        if on_disk:
+                            sf = simfile.open(path, filesystem=mem)          # format from the file name's extension
+                            detect = False
+                        else:
+                            sf = simfile.loads(text) if detect else type(sf)(string=text)
                         log("reopen", sf, detect=detect)
                     except Exception as e:  # noqa
                         evs.append({"op": "reopen", "detect": detect, "after": {"fmt": "?", "items": [], "charts": [], "raised": type(e).__name__}})
